@@ -12,6 +12,9 @@ NA = {
 }
 TRUST = "Trusted: the harness interpreter, the reference model named in the check (small, written from the property statement), CPython. Sampling: a clean batch is evidence, not proof."
 CHECKS = {
+ 'C02': dict(level='fault_enumeration', ref='§5 C02', world='refs',
+   text="Rejected attempts injected at every position of seeded link/assignment histories: invalid plain value, reference whose current value is invalid for the target, constant and read-only violations, invalid class-level default, single-key update, rejected constructor - on linked and unlinked parameters; each attempt is bracketed by complete snapshots (values of every object and class, universal event log, watcher-table sizes of targets and sources) and followed by source updates so that a link switched or dropped by the failed attempt shows up against the unchanged link model.",
+   tech="deterministic fault injection: rejected assignments at every position of seeded histories, before/after snapshot equality plus behavioural link oracle"),
  'C03': dict(level='exploration', ref='§5 C03', world='dispatch',
    text="Seeded search over programs x watcher configurations: every run interprets one generated program (sets, same-object and equal-value sets, updates, triggers, slot sets, watch/unwatch, scripted re-entrant callbacks) against real param objects and against an executable reference dispatcher written from the statement; the two delivery histories (who was called, nesting, order, events, old/new identity, type, object state at entry) are compared entry by entry, three-valued where the statement is silent.",
    tech="deterministic simulation of the dispatcher: seeded operation/callback programs, lock-step executable reference dispatcher as history oracle, ddmin shrinking"),
@@ -27,6 +30,9 @@ CHECKS = {
  'C19': dict(level='exploration', ref='§5 C19', world='time',
    text="Seeded search over clock schedules: a run-private param.Time clock is jumped forward, backward, to repeated times, to -1 and far away while Number parameters driven by numbergen generators (names/seeds repeated across instances, arithmetic compositions, one impure counter) are read, double-read, inspected, forced, state-pushed/popped and swapped, inside nested time contexts left normally or by exception; every read is compared with a fresh generator of the same spec at that time; context exit must restore time (value and type), timestep and until.",
    tech="deterministic simulation with a simulated clock: seeded time jumps (backward, repeated, sentinel, huge) and context faults; fresh-generator table keyed by (generator, time) as oracle"),
+ 'C08': dict(level='exploration', ref='§5 C08', world='refs',
+   text="Seeded search over histories of source updates, links (Parameter / bind / two-source bind / depends method / rx expression / nested list or dict of these, made in the constructor or later), plain overrides, relinks and update() contexts on 1-3 targets with five allow_refs parameters; after every step every linked parameter must equal its reference evaluated on the model's source values, unlinked parameters must not move, unreferenced sources must carry no extra watcher and update contexts must restore value and link.",
+   tech="deterministic simulation of link histories: link-map reference model, mirror invariant and watcher-leak baseline after every step"),
  'C10': dict(level='exploration', ref='§5 C10', world='async',
    text="Seeded search over schedules: every run is one exactly repeatable interleaving of assignments (coroutine / async generator / sync generator / bound async / plain / Parameter reference), source changes, rx input updates and reads, single event-loop steps, gate resolutions in any order (optionally failing) and executor-job completions on a virtual-time asyncio loop; oracles: attributable unique results (no stale apply, cancel-is-permanent), final value belongs to the latest evaluation of the latest assignment, bounded quiescence.",
    tech="deterministic simulation: virtual-time asyncio loop with seeded completion orders, interleaved assignments and injected awaitable failures; history oracle with attributable values"),
